@@ -18,6 +18,12 @@ inductive PyErr where
 
 abbrev Py := Except PyErr
 
+instance {ε α : Type} [DecidableEq ε] [DecidableEq α] : DecidableEq (Except ε α)
+  | .ok a, .ok b => if h : a = b then isTrue (by rw [h]) else isFalse (by intro h'; cases h'; exact h rfl)
+  | .error a, .error b => if h : a = b then isTrue (by rw [h]) else isFalse (by intro h'; cases h'; exact h rfl)
+  | .ok _, .error _ => isFalse (by intro h; cases h)
+  | .error _, .ok _ => isFalse (by intro h; cases h)
+
 def PyErr.documented : PyErr → Bool
   | .negative _ | .invalid | .unexpected | .timeout | .config | .notImpl => true
   | _ => false
